@@ -78,8 +78,12 @@ fn replay(property: &str, path: &str) -> i32 {
         .find(|p| p.name == name)
         .expect("unknown program");
     let mut finals = vec![];
+    let wprog = weak.iter().find(|w| w.prog.name == name);
     for sc in &scheds {
-        let (fin, obs) = model::run(p, sc);
+        let (mut fin, obs) = model::run(p, sc);
+        if let Some(wp) = wprog {
+            fin = c32::final_of(wp, sc); // tick-scoped operators observe the driven tick only
+        }
         println!("  schedule {}", sc.to_json());
         if let Some(o) = &obs {
             println!("    emitted {:?} tick marks {:?} (before settling: {})", o.items, o.marks, o.pre_settle);
@@ -91,7 +95,9 @@ fn replay(property: &str, path: &str) -> i32 {
         "schedule" | "weak" => finals.windows(2).any(|w| w[0].0 != w[1].0),
         "reference" => {
             let sc = &scheds[0];
-            let exp = model::ref_final(p.out, (p.reference.expect("no reference"))(&sc.input_a(), &sc.input_b(), sc.s));
+            // C32 stores the DENOTED input separately (the schedule carries the physical arrival)
+            let den_a = if case["denoted_a"].is_object() { driver::Sched::from_json(&case["denoted_a"]).input_a() } else { sc.input_a() };
+            let exp = model::ref_final(p.out, (p.reference.expect("no reference"))(&den_a, &sc.input_b(), sc.s));
             println!("  reference {}", exp.to_json());
             finals[0].0 != exp
         }
